@@ -232,6 +232,8 @@ def realize_ops(R, ops):
 # -------------------------------------------- through the real dispatcher / RPC
 
 class _NullLogger(object):
+    handlers = ()
+
     def __getattr__(self, name):
         return lambda *a, **k: None
 
@@ -328,7 +330,8 @@ BEGIN = b'<!--XSUPERVISOR:BEGIN-->'
 END = b'<!--XSUPERVISOR:END-->'
 PHASES = ('normal', 'capture', 'partial_begin', 'partial_end')
 PHASE_OPS = ('reopen', 'removelogs', 'rpc_clear', 'move_reopen', 'move_removelogs', 'move_rpc_clear', 'disp_reopen',
-             'disp_removelogs', 'move_disp_reopen')
+             'disp_removelogs', 'move_disp_reopen', 'sigusr2', 'move_sigusr2', 'rpc_clear_all', 'move_rpc_clear_all',
+             'group_removelogs')
 
 
 class _Recorder(object):
@@ -378,7 +381,11 @@ def make_capture_rig(wd, mb, bk, tag='cap'):
         stderr_events_enabled=False, stderr_syslog=False,
         stopsignal=15, stopwaitsecs=1, stopasgroup=False, killasgroup=False, exitcodes=(0,),
         redirect_stderr=False, environment=None, serverurl=None)
-    proc = Subprocess(ProcessConfig(options, **params))
+    from supervisor.options import ProcessGroupConfig
+    from supervisor.process import ProcessGroup
+    from supervisor.supervisord import Supervisor
+    group = ProcessGroup(ProcessGroupConfig(options, 'g', 999, [ProcessConfig(options, **params)]))
+    proc = group.processes['p']
     proc.pid = 4242
     proc.dispatchers = {5: POutputDispatcher(proc, events.ProcessCommunicationStdoutEvent, 5),
                         7: POutputDispatcher(proc, events.ProcessCommunicationStderrEvent, 7)}
@@ -389,19 +396,14 @@ def make_capture_rig(wd, mb, bk, tag='cap'):
         h.setLevel(proc.dispatchers[fd].normallog.level)
         proc.dispatchers[fd].normallog.addHandler(h)
 
-    class GConfig(object):
-        name = 'g'
-
-    class Group(object):
-        config = GConfig()
-        processes = {'p': proc}
-
-    class Sup(object):
-        pass
-    sup = Sup()
-    sup.options = options
-    sup.process_groups = {'g': Group()}
+    sup = Supervisor(options)                      # the real daemon object: handle_signal() is driven directly
+    sup.process_groups = {'g': group}
+    pending = []
+    options.get_signal = lambda: pending.pop(0) if pending else None
+    sup.pending_signals = pending
     iface = rpcinterface.SupervisorNamespaceRPCInterface(sup)
+    iface.sup = sup
+    iface.group = group
     return d, bases, proc, feed, iface, timeline
 
 
@@ -481,6 +483,23 @@ def run_capture_script(R, wd, mb, bk, steps):
                         elif name == 'rpc_clear':
                             iface.clearProcessLogs('g:p')
                             kinds = [('c', 'stdout'), ('c', 'stderr')]
+                        elif name == 'sigusr2':
+                            import signal
+                            iface.sup.pending_signals.append(signal.SIGUSR2)
+                            iface.sup.handle_signal()
+                            kinds = [('r', 'stdout'), ('r', 'stderr')]
+                        elif name == 'rpc_clear_all':
+                            from supervisor.http import NOT_DONE_YET
+                            cont = iface.clearAllProcessLogs()
+                            res = cont()
+                            while res is NOT_DONE_YET:
+                                res = cont()
+                            if [r_['status'] for r_ in res] != [80]:
+                                raise AssertionError('clearAllProcessLogs answered %r' % (res,))
+                            kinds = [('c', 'stdout'), ('c', 'stderr')]
+                        elif name == 'group_removelogs':
+                            iface.group.removelogs()
+                            kinds = [('c', 'stdout'), ('c', 'stderr')]
                         elif name == 'disp_reopen':
                             proc.dispatchers[fds[ch]].reopenlogs()
                             kinds = [('r', ch)]
@@ -527,6 +546,433 @@ def capture_history_terms(out, channel):
         s = snap[channel] if snap else None
         items.append('(%s,%s)' % (op_term(o), 'None' if s is None or not isinstance(s, dict) else 'Some (%s)' % snap_term(s)))
     return '[%s]' % ';'.join(items)
+
+
+
+# ---- stream 6: configuration text -> handler class and parameters
+
+DEF_MB, DEF_BK = 50 * 1024 * 1024, 10
+
+
+def _bytesize(t):
+    t = t.lower()
+    for suf, m in (('kb', 1024), ('mb', 1024 * 1024), ('gb', 1024 ** 3)):
+        if t.endswith(suf):
+            return int(t[:-2]) * m
+    return int(t)
+
+
+def _observe_handler(h):
+    from supervisor import loggers
+    if isinstance(h, loggers.RotatingFileHandler):
+        return (True, h.maxBytes, h.backupCount)
+    if isinstance(h, loggers.FileHandler):
+        return (False, 0, 0)
+    return None
+
+
+def config_stream(chk, R, wd):
+    """Real config text / command line -> real ServerOptions -> make_logger() and
+    POutputDispatcher._init_normallog(): which handler with which parameters."""
+    import contextlib
+    import io
+    from supervisor.options import ServerOptions
+    from supervisor.process import Subprocess
+    from supervisor.dispatchers import POutputDispatcher
+    from supervisor import events, loggers
+    cases, meta = [], []
+    d = os.path.join(wd, 'conf')
+    os.makedirs(d, exist_ok=True)
+    mbs = [None, '0', '1', '100', '1KB', '2MB']
+    bks = [None, '0', '1', '3', '10']
+    combos = list(itertools.product(mbs, bks))
+
+    def record(kind, cmb, cbk, obs, detail):
+        chk.dist('config:' + kind)
+        if obs is None:
+            chk.violation(_j({'kind': 'no file handler was built for a configured log file', 'where': kind, 'detail': detail}))
+            return
+        emb = DEF_MB if cmb is None else _bytesize(cmb)
+        ebk = DEF_BK if cbk is None else int(cbk)
+        rot, omb, obk = obs
+        # the property, on the implementation: configured values (0 included) are the handler's
+        if rot != (emb != 0) or (rot and (omb, obk) != (emb, ebk)):
+            chk.violation(_j({'kind': 'C19 fails on the implementation (configuration)', 'where': kind,
+                              'what': 'configured maxbytes=%r backups=%r but the log got %s' % (
+                                  cmb, cbk, ('RotatingFileHandler(maxBytes=%d, backupCount=%d)' % (omb, obk)) if rot
+                                  else 'a plain FileHandler (never rotated)'),
+                              'detail': detail}))
+        cases.append('(%d,%s,%d,%s,%s,%d,%d)' % (
+            DEF_MB, 'None' if cmb is None else 'Some %d' % _bytesize(cmb),
+            DEF_BK, 'None' if cbk is None else 'Some %d' % int(cbk),
+            'true' if rot else 'false', omb, obk))
+        meta.append((kind, cmb, cbk, obs))
+
+    for i, (mb, bk) in enumerate(combos):
+        pmb, pbk = combos[(i * 7 + 3) % len(combos)]       # stdout of the program
+        emb, ebk = combos[(i * 11 + 5) % len(combos)]      # stderr of the program
+        for source in ('file', 'cmdline'):
+            if source == 'cmdline' and (mb is None and bk is None):
+                continue
+            actlog = os.path.join(d, 'supervisord.log')
+            lines = ['[supervisord]', 'logfile=%s' % actlog, 'pidfile=%s' % os.path.join(d, 'x.pid'), 'childlogdir=%s' % d]
+            if i % 2:
+                lines.append('nodaemon=true')
+            args = ['-c', os.path.join(d, 's.conf')]
+            if source == 'file':
+                if mb is not None:
+                    lines.append('logfile_maxbytes=%s' % mb)
+                if bk is not None:
+                    lines.append('logfile_backups=%s' % bk)
+            else:
+                # the file says something else; the command line wins
+                lines += ['logfile_maxbytes=7', 'logfile_backups=7']
+                if mb is not None:
+                    args += ['-y', mb]
+                if bk is not None:
+                    args += ['-z', bk]
+            lines += ['[program:p]', 'command=/bin/cat', 'stdout_logfile=%s' % os.path.join(d, 'p.out'),
+                      'stderr_logfile=%s' % os.path.join(d, 'p.err')]
+            for key, v in (('stdout_logfile_maxbytes', pmb), ('stdout_logfile_backups', pbk),
+                           ('stderr_logfile_maxbytes', emb), ('stderr_logfile_backups', ebk)):
+                if v is not None:
+                    lines.append('%s=%s' % (key, v))
+            text = '\n'.join(lines) + '\n'
+            with open(os.path.join(d, 's.conf'), 'w') as f:
+                f.write(text)
+            opened = []
+            try:
+                with contextlib.redirect_stdout(io.StringIO()), R.quiet_stderr():
+                    o = ServerOptions()
+                    o.realize(args=args)
+                    o.make_logger()
+                    opened += o.logger.handlers
+                    fh = [h for h in o.logger.handlers if isinstance(h, loggers.FileHandler)]
+                    pconfig = o.process_group_configs[0].process_configs[0]
+                    proc = Subprocess(pconfig)
+                    dout = POutputDispatcher(proc, events.ProcessCommunicationStdoutEvent, 5)
+                    derr = POutputDispatcher(proc, events.ProcessCommunicationStderrEvent, 7)
+                    opened += dout.normallog.handlers + derr.normallog.handlers
+                detail = {'config': text, 'args': args[2:]}
+                cm = mb if source == 'file' else (mb if mb is not None else '7')
+                cb = bk if source == 'file' else (bk if bk is not None else '7')
+                record('activity:' + source, cm, cb, _observe_handler(fh[0]) if fh else None, detail)
+                if source == 'file':
+                    record('stdout', pmb, pbk, _observe_handler(dout.normallog.handlers[0]), detail)
+                    record('stderr', emb, ebk, _observe_handler(derr.normallog.handlers[0]), detail)
+            finally:
+                for h in opened:
+                    try:
+                        h.close()
+                    except Exception:
+                        pass
+                for n in os.listdir(d):
+                    if n != 's.conf':
+                        try:
+                            os.remove(os.path.join(d, n))
+                        except OSError:
+                            pass
+    bad, errs = vlib.coq_compare(IMPORTS, 'Z * option Z * Z * option Z * bool * Z * Z', 'check_config', cases, wd,
+                                 tag='conf', shard=200, preamble=PRE)
+    for e in errs:
+        chk.violation({'kind': 'model evaluation failed', 'part': 'configuration', 'error': e}, nofail=True)
+    for i in bad[:5]:
+        chk.violation(_j({'kind': 'model and implementation disagree', 'part': 'configuration -> handler parameters',
+                          'case': meta[i]}), nofail=True)
+    return len(cases)
+
+
+# ---- stream 7: the activity logger with 1-3 handlers of every kind in every order
+
+class _Stub(object):
+    pass
+
+
+def activity_stream(chk, R, wd):
+    """clearLog RPC / ServerOptions.reopenlogs (SIGUSR2) on a real Logger carrying
+    stream, file, rotating and syslog handlers in every order; also after the file
+    was moved away.  Judge: afterwards every file handler is open on the file at
+    its configured path and what is logged later is there."""
+    import io
+    import shutil
+    from supervisor.options import ServerOptions
+    from supervisor import loggers, rpcinterface, states
+    kinds = ('stream', 'file', 'rot', 'syslog')
+    orders = []
+    for n in (1, 2, 3):
+        orders += list(itertools.permutations(kinds, n))
+    cases, meta = [], []
+    n_scripts = 0
+    for order in orders:
+        if 'file' not in order and 'rot' not in order:
+            continue
+        for opname in ('clearLog', 'reopenlogs', 'move_reopenlogs', 'move_clearLog'):
+            n_scripts += 1
+            d = os.path.join(wd, 'act')
+            shutil.rmtree(d, ignore_errors=True)
+            os.makedirs(os.path.join(d, 'moved'))
+            timeline = []
+            logger = loggers.getLogger()
+            paths = {}
+            params = {'file': (0, 0), 'rot': (40, 1)}
+            with R.quiet_stderr():
+                rec = loggers.StreamHandler(_Recorder(timeline, 'all'))     # first: sees every message as logged
+                rec.setFormat('%(message)s')
+                logger.addHandler(rec)
+                for k in order:
+                    if k == 'stream':
+                        h = loggers.StreamHandler(io.StringIO())
+                        h.setFormat('%(message)s')
+                        logger.addHandler(h)
+                    elif k == 'syslog':
+                        h = loggers.SyslogHandler()
+                        h._syslog = lambda msg: None
+                        h.setFormat('%(message)s')
+                        logger.addHandler(h)
+                    else:
+                        os.makedirs(os.path.join(d, k))
+                        paths[k] = os.path.join(d, k, 'log')
+                        loggers.handle_file(logger, paths[k], '%(message)s', rotating=not not params[k][0],
+                                            maxbytes=params[k][0], backups=params[k][1])
+                        h = logger.handlers[-1]
+                        orig = h.reopen
+
+                        def wrapped(orig=orig, k=k):
+                            orig()
+                            timeline.append(('r', k))
+                        h.reopen = wrapped
+            main = 'file' if 'file' in order else 'rot'
+            options = ServerOptions()
+            options.logger = logger
+            options.logfile = paths[main]
+            options.mood = states.SupervisorStates.RUNNING
+            orig_remove = options.remove
+
+            def remove(path, orig_remove=orig_remove, main=main):
+                orig_remove(path)
+                timeline.append(('d', main))
+            options.remove = remove
+            from supervisor.supervisord import Supervisor
+            import signal
+            sup = Supervisor(options)
+            pending = []
+            options.get_signal = lambda: pending.pop(0) if pending else None
+            iface = rpcinterface.SupervisorNamespaceRPCInterface(sup)
+            events_out = []       # (event, {kind: snapshot} or None)
+            problems = []
+
+            def snaps():
+                return {k: R.snapshot(os.path.dirname(p_), p_) for k, p_ in paths.items()}
+
+            def drain():
+                s_ = snaps()
+                while timeline:
+                    events_out.append((timeline.pop(0), None))
+                if events_out:
+                    events_out[-1] = (events_out[-1][0], s_)
+            try:
+                with R.quiet_stderr():
+                    logger.info('first line of the activity log\n')
+                    logger.info('x' * 30 + '\n')
+                    drain()
+                    name = opname
+                    if name.startswith('move_'):
+                        for k, p_ in paths.items():
+                            os.rename(p_, os.path.join(d, 'moved', k))
+                            timeline.append(('d', k))
+                        drain()
+                        name = name[5:]
+                    if name == 'clearLog':
+                        if not os.path.exists(options.logfile):
+                            # clearLog answers NO_FILE when the file is not there: recreate it as logrotate's `create` does
+                            open(options.logfile, 'wb').close()
+                            timeline.append(('x', main))
+                            drain()
+                        iface.clearLog()
+                    else:
+                        pending.append(signal.SIGUSR2)          # SIGUSR2 -> Supervisor.handle_signal -> options.reopenlogs
+                        sup.handle_signal()
+                    drain()
+                    s_ = snaps()
+                    for k, p_ in paths.items():
+                        h = [hh for hh in logger.handlers if getattr(hh, 'baseFilename', None) == p_][0]
+                        if not os.path.exists(p_):
+                            problems.append('after %s there is no file at the configured path of the %s handler (handlers: %s)'
+                                            % (opname, k, ', '.join(order)))
+                        elif h.stream.closed or os.fstat(h.stream.fileno()).st_ino != os.stat(p_).st_ino:
+                            problems.append('after %s the %s handler does not write to the file at its configured path '
+                                            '(handlers: %s)' % (opname, k, ', '.join(order)))
+                    marker = 'MARK-%s-%s\n' % ('-'.join(order), opname)
+                    logger.info(marker)
+                    logger.info('y' * 20 + '\n')
+                    drain()
+                    s_ = snaps()
+                    for k in paths:
+                        files = s_[k]
+                        cat = b''.join(files[i] for i in sorted(files, reverse=True)) if isinstance(files, dict) else b''
+                        if marker.strip().encode() not in cat and not problems:
+                            problems.append('what was logged after %s is not in the %s log at its configured path' % (opname, k))
+            except Exception as e:
+                problems.append('exception out of %s: %r' % (opname, e))
+            finally:
+                with R.quiet_stderr():
+                    for h in logger.handlers:
+                        try:
+                            h.close()
+                        except Exception:
+                            pass
+            chk.dist('activity:%s' % opname)
+            chk.dist('activity_handlers:%d' % len(order))
+            for pr in problems[:1]:
+                chk.violation(_j({'kind': 'C19 fails on the implementation (activity log)', 'what': pr, 'handlers': list(order),
+                                  'operation': opname, 'events': [[list(ev), sn] for ev, sn in events_out]}))
+            for k in paths:
+                items = []
+                for ev, sn in events_out:
+                    if ev[0] == 'w':
+                        # SyslogHandler.emit rewrites the shared record's message line by line: a handler placed
+                        # after a syslog handler receives the text without its trailing newline (supervisord itself
+                        # never builds that order: the syslog handler is always added last)
+                        raw = ev[2].rstrip(b'\n') if 'syslog' in order[:order.index(k)] else ev[2]
+                        o = ('w', list(raw))
+                    elif ev[1] != k:
+                        continue
+                    elif ev[0] == 'r':
+                        o = ('r',)
+                    elif ev[0] == 'd':
+                        o = ('d', 0)
+                    else:
+                        o = ('x', 0, [])
+                    s2 = sn[k] if sn else None
+                    items.append('(%s,%s)' % (op_term(o), 'Some (%s)' % snap_term(s2) if isinstance(s2, dict) else 'None'))
+                cases.append('(%d,%d,[%s])' % (params[k][0], params[k][1], ';'.join(items)))
+                meta.append((order, opname, k))
+            shutil.rmtree(d, ignore_errors=True)
+    bad, errs = vlib.coq_compare(IMPORTS, 'Z * Z * list (op * option snap)', 'check_history_opt', cases, wd,
+                                 tag='act', shard=60, preamble=PRE)
+    for e in errs:
+        chk.violation({'kind': 'model evaluation failed', 'part': 'activity log', 'error': e}, nofail=True)
+    for i in bad[:5]:
+        chk.violation(_j({'kind': 'model and implementation disagree', 'part': 'activity logger with several handlers',
+                          'case': meta[i], 'coq_case': cases[i][:3000]}), nofail=True)
+    return n_scripts, len(cases)
+
+
+# ---- stream 8: clear / reopen while the log directory is missing, then repaired
+
+def outage_stream(chk, R, wd):
+    """Handler level (remove+reopen as removelogs does, reopen) and dispatcher /
+    RPC level: the operation fails while the directory is gone (both before and
+    after any change to the code); once the directory is back the same operation
+    must succeed and later output must be in the file at the configured path."""
+    import shutil
+    from supervisor import loggers
+    cases, meta = [], []
+    n_scripts = 0
+    for (mb, bk) in ((0, 0), (30, 1), (30, 0)):
+        for level in ('handler', 'dispatcher'):
+            for first in ('reopen', 'clear'):
+                for second in ('reopen', 'clear'):
+                    for repeat_fail in (1, 2):
+                        n_scripts += 1
+                        d = os.path.join(wd, 'outage')
+                        shutil.rmtree(d, ignore_errors=True)
+                        logdir = os.path.join(d, 'logs')
+                        os.makedirs(logdir)
+                        base = os.path.join(logdir, 'log')
+                        hist = []        # (op tuple, snapshot or None)
+                        problems = []
+                        gen = R.Bytes()
+                        if level == 'handler':
+                            lg = loggers.getLogger()
+                            loggers.handle_file(lg, base, '%(message)s', rotating=not not mb, maxbytes=mb, backups=bk)
+
+                            def write(b):
+                                lg.info(bytes(b))
+
+                            def do(op):
+                                for h in lg.handlers:
+                                    if op == 'clear':
+                                        h.remove()
+                                    h.reopen()
+                            closers = lg.handlers
+                        else:
+                            d2, base2, proc, feed, iface = make_dispatcher_rig(logdir, mb, bk, False, tag='sub')
+                            base = base2
+
+                            def write(b):
+                                feed[5] = bytes(b)
+                                proc.dispatchers[5].handle_read_event()
+
+                            def do(op):
+                                if op == 'clear':
+                                    iface.clearProcessLogs('g:p')
+                                else:
+                                    proc.reopenlogs()
+                            closers = [h for disp in proc.dispatchers.values() for h in disp.normallog.handlers]
+                        logdir = os.path.dirname(base)
+
+                        def snap():
+                            return R.snapshot(logdir, base)
+                        try:
+                            with R.quiet_stderr():
+                                m = list(gen.take(12))
+                                write(m)
+                                hist.append((('w', m), snap()))
+                                gone = logdir + '.gone'
+                                os.rename(logdir, gone)
+                                for _ in range(repeat_fail):
+                                    try:
+                                        do(first)
+                                        problems.append('harness: %s succeeded although the log directory is missing' % first)
+                                    except Exception:
+                                        hist.append((('cf',) if first == 'clear' else ('rf',), None))
+                                os.rename(gone, logdir)          # the cause is repaired
+                                try:
+                                    do(second)
+                                    s_ = snap()
+                                    hist.append((('c',) if second == 'clear' else ('r',), s_))
+                                    if not (isinstance(s_, dict) and 0 in s_):
+                                        problems.append('after the repaired %s there is no file at the configured path' % second)
+                                except Exception as e:
+                                    problems.append('%s still fails after the log directory is back (%s earlier failed %d time(s)): %r'
+                                                    % (second, first, repeat_fail, e))
+                                if not problems:
+                                    m = list(gen.take(10))
+                                    write(m)
+                                    s_ = snap()
+                                    hist.append((('w', m), s_))
+                                    cat = b''.join(s_[i] for i in sorted(s_, reverse=True)) if isinstance(s_, dict) else b''
+                                    if bytes(m) not in cat and not (mb and bk <= 0):
+                                        problems.append('output logged after the repaired %s is not in the file at the configured path' % second)
+                        except Exception as e:
+                            problems.append('exception out of a write: %r' % (e,))
+                        finally:
+                            with R.quiet_stderr():
+                                for h in closers:
+                                    try:
+                                        h.close()
+                                    except Exception:
+                                        pass
+                        chk.dist('outage:%s' % level)
+                        for pr in problems[:1]:
+                            chk.violation(_j({'kind': 'C19 fails on the implementation (log directory outage)', 'what': pr,
+                                              'level': level, 'maxbytes': mb, 'backups': bk, 'failed_operation': first,
+                                              'times_failed': repeat_fail, 'repeated_operation': second,
+                                              'history': [[list(o), sn] for o, sn in hist]}))
+                        cases.append('(%d,%d,[%s])' % (mb, bk, ';'.join(
+                            '(%s,%s)' % ({'rf': 'RF', 'cf': 'CF'}.get(o[0]) or op_term(o),
+                                         'Some (%s)' % snap_term(sn) if isinstance(sn, dict) else 'None') for o, sn in hist)))
+                        meta.append((level, mb, bk, first, second, repeat_fail))
+                        shutil.rmtree(d, ignore_errors=True)
+    bad, errs = vlib.coq_compare(IMPORTS, 'Z * Z * list (op * option snap)', 'check_history_opt', cases, wd,
+                                 tag='outage', shard=60, preamble=PRE)
+    for e in errs:
+        chk.violation({'kind': 'model evaluation failed', 'part': 'outage', 'error': e}, nofail=True)
+    for i in bad[:5]:
+        chk.violation(_j({'kind': 'model and implementation disagree', 'part': 'clear/reopen around a missing log directory',
+                          'case': meta[i], 'coq_case': cases[i][:3000]}), nofail=True)
+    return n_scripts
 
 
 # ------------------------------------------------------------------- the run
@@ -784,6 +1230,10 @@ def _run(chk, wd, proved):
                           'channel_compared': ch, 'steps': [list(x) for x in steps], 'coq_case': ccases[i][:3000]}),
                       nofail=True)
     chk.note('t_capture_done=%.1f' % (__import__('time').time() - chk.t0))
+    n_conf = config_stream(chk, R, wd)
+    n_act_scripts, n_act = activity_stream(chk, R, wd)
+    n_outage = outage_stream(chk, R, wd)
+    chk.note('t_config_activity_outage_done=%.1f' % (__import__('time').time() - chk.t0))
     if shared_hits:
         chk.known_finding('C19-shared', 'more than one rotating handler on one path (stdout and stderr, or two logs, configured '
                                         'to the same file): a backup shorter than maxbytes, a live log at or above maxbytes or '
@@ -792,7 +1242,7 @@ def _run(chk, wd, proved):
     if not proved:
         chk.violation({'kind': 'proof obligation no longer checks', 'detail': chk.proof_failure,
                        'file': 'coq/props/C19.v'}, nofail=not chk.violations)
-    n_eval = total_nodes + len(hcases) + len(mcases) + len(dcases) + len(m2) + len(ccases)
+    n_eval = total_nodes + len(hcases) + len(mcases) + len(dcases) + len(m2) + len(ccases) + n_conf + n_act + n_outage
     cov['evaluations'] = n_eval
     cov['distinct_nontrivial'] = total_nodes + len(distinct)
     cov['traces_validated_against_impl'] = n_eval
@@ -804,9 +1254,12 @@ def _run(chk, wd, proved):
                    'Subprocess.reopenlogs / clearProcessLogs; %d scripts on real CAPTURING dispatchers (log file and '
                    'capture_maxbytes > 0, stdout and stderr): reopen / removelogs / clearProcessLogs RPC / per-dispatcher calls, '
                    'also after the live log was moved away, in each phase (normal, inside a capture section, partial BEGIN '
-                   'token held back, partial END token held back); distinct = distinct prefixes + distinct (op kind, file '
+                   'token held back, partial END token held back); %d handler-parameter observations from real config text / -y -z '
+                   'through ServerOptions.make_logger and POutputDispatcher; %d scripts on the activity logger with 1-3 handlers '
+                   '(stream, file, rotating, syslog) in every order: clearLog RPC / reopenlogs, also after the files were moved '
+                   'away; %d clear/reopen scripts around a missing log directory (handler and dispatcher/RPC level); distinct = distinct prefixes + distinct (op kind, file '
                    'sizes) random histories' % ('5 (4 for maxbytes > 3)' if chk.tier == 'quick' else '6 (5 for maxbytes > 4)',
-                                         total_nodes, len(hcases), len(mcases), len(dcases) + len(m2), n_scripts))
+                                         total_nodes, len(hcases), len(mcases), len(dcases) + len(m2), n_scripts, n_conf, n_act_scripts, n_outage))
     cov['samples'] = [_j({'maxbytes': m[0], 'backups': m[1], 'ops': m[2], 'observed': m[3]}) for m in hmeta[3:5]]
 
 
